@@ -27,7 +27,8 @@ Requests == <<
   [method |-> GETm, uri |-> <<104,116,116,112,115,58,47,47,97,47>>, scheme |-> HTTPS, authority |-> <<97>>, path |-> <<47>>, protocol |-> <<>>,
    fields |-> <<>>, body |-> <<>>, trailers |-> <<>>, has_trailers |-> FALSE],
   [method |-> POSTm, uri |-> <<104,116,116,112,115,58,47,47,97,46,98,47,112,63,113,61,49>>, scheme |-> HTTPS, authority |-> <<97,46,98>>, path |-> <<47,112,63,113,61,49>>, protocol |-> <<>>,
-   fields |-> <<F(X, <<49>>), F(Accept, <<42,47,42>>), F(X, <<50>>), F(<<88,45,85,112>>, <<51>>), F(X, <<51>>)>>, body |-> <<5>>, trailers |-> <<>>, has_trailers |-> FALSE],
+   \* (field values are opaque octets: obs-text bytes 0x80..0xff that are not UTF-8 must survive - RFC 9110 5.5)
+   fields |-> <<F(X, <<49>>), F(Accept, <<42,47,42>>), F(X, <<50>>), F(<<88,45,85,112>>, <<51>>), F(X, <<99,97,102,233>>), F(<<120,45,98,105,110>>, <<128,255,32,254>>)>>, body |-> <<5>>, trailers |-> <<>>, has_trailers |-> FALSE],
   [method |-> PUTm, uri |-> <<104,116,116,112,58,47,47,97,58,56,48,47>>, scheme |-> HTTP, authority |-> <<97,58,56,48>>, path |-> <<47>>, protocol |-> <<>>,
    fields |-> <<F(Cookie, <<97,61,98>>), F(Cookie, <<99,61,100>>)>>, body |-> <<1, 0, 70>>, trailers |-> <<F(<<116>>, <<49>>), F(<<116>>, <<50>>)>>, has_trailers |-> TRUE],
   [method |-> OPTm, uri |-> <<104,116,116,112,115,58,47,47,97,47,120>>, scheme |-> HTTPS, authority |-> <<97>>, path |-> <<47,120>>, protocol |-> <<>>,
@@ -43,8 +44,8 @@ Requests == <<
 
 Responses == <<
   [status |-> 200, fields |-> <<>>, body |-> <<>>, trailers |-> <<>>, has_trailers |-> FALSE],
-  [status |-> 404, fields |-> <<F(X, <<49>>), F(<<115,101,116,45,99,111,111,107,105,101>>, <<97>>), F(X, <<50>>), F(<<115,101,116,45,99,111,111,107,105,101>>, <<98>>)>>,
-   body |-> <<1, 5>>, trailers |-> <<F(<<116>>, <<57>>)>>, has_trailers |-> TRUE],
+  [status |-> 404, fields |-> <<F(X, <<49>>), F(<<115,101,116,45,99,111,111,107,105,101>>, <<97>>), F(X, <<50>>), F(<<115,101,116,45,99,111,111,107,105,101>>, <<98>>), F(<<120,45,108>>, <<233,232>>)>>,
+   body |-> <<1, 5>>, trailers |-> <<F(<<116>>, <<57>>), F(<<116,50>>, <<99,97,102,233>>)>>, has_trailers |-> TRUE],
   [status |-> 204, fields |-> <<F(<<88,45,89>>, Long300)>>, body |-> <<0, 0>>, trailers |-> <<>>, has_trailers |-> FALSE],
   [status |-> 200, fields |-> <<>>, body |-> <<70, 16383, 1>>, trailers |-> <<>>, has_trailers |-> TRUE] >>
 
